@@ -481,7 +481,10 @@ RetransEv ==
        \* (not judged for an answered request when the harness or the agent was visibly held up: e.slow - the scripted peer's own
        \* answer left more than half a time-out late; a gap between two transmissions more than 20 % above the time-out - the
        \* agent's timer fired late, so its handling of the answer may have been late as well)
+       \* mode "gap": the answer to the k-th transmission arrived after its time-out had fired and before the retransmission
+       \* (the requester was held at that point): at most that retransmission leaves, and the peer is not given up
        !.rtOutcome = (IF e.mode = "none" THEN cnt = 1 + e.n /\ e.dead
+                      ELSE IF e.mode = "gap" THEN cnt <= e.k + 1 /\ ~e.dead
                       ELSE e.slow \/ (\E i \in 1..(cnt - 1) : 10 * (e.tx[i + 1] - e.tx[i]) > 12 * e.tMs) \/ (cnt = e.k /\ ~e.dead))]
   /\ last' = [ev |-> "retrans", kind |-> e.mode, accepted |-> FALSE, u |-> "-"]
   /\ Advance
